@@ -41,9 +41,10 @@ def call_oracle(c):
     if len(tree.args) != len(t[2]) or [k.arg for k in tree.keywords] != [k for k, _x in t[3]]:
         return 'arguments %d / keywords %r differ from the call (%d, %r)' % (
             len(tree.args), [k.arg for k in tree.keywords], len(t[2]), [k for k, _x in t[3]])
-    subs = list(zip(t[2], tree.args)) + [(x, k.value) for (_kw, x), k in zip(t[3], tree.keywords)]
-    for term, node in subs:
-        v, _ = valgen.build(term)
+    # the argument OBJECTS of the printed value themselves (a rebuilt set may iterate in another order,
+    # which matters once max_seq_len cuts it)
+    subs = list(zip(list(c.value.args), tree.args)) + [(x, k.value) for (_kw, x), k in zip(c.value.kwargs, tree.keywords)]
+    for v, node in subs:
         alone, _w = PC.impl_pformat(v, dict(c.cfg))
         try:
             wt = ast.parse('(' + alone + '\n)', mode='eval')
